@@ -103,7 +103,7 @@ PROPS = {
         assumptions=PROC_ASSUME['C03'],
     ),
     'C04': dict(
-        lean=['Props.C04', 'Props.C04Window', 'Props.FactsProc'],
+        lean=['Props.C04', 'Props.C04Spec', 'Props.C04Window', 'Props.FactsProc'],
         streams=['processor', 'window', 'fs', 'e2e'],
         project={'processor': r'^< (md|m\.|re|rs|ret|panic)', 'fs': r'^< gate', 'e2e': r'^$'}, rule=PROC_RULE, trusted=PROC_TRUSTED,
         assumptions=PROC_ASSUME['C04'],
@@ -116,13 +116,13 @@ PROPS = {
         assumptions=PROC_ASSUME['C12'],
     ),
     'C13': dict(
-        lean=['Props.C13', 'Props.C13Parse', 'Props.FactsProc', 'Props.FactsWiring', 'Props.Pipeline'],
+        lean=['Props.C13', 'Props.C13Spec', 'Props.C13Parse', 'Props.FactsProc', 'Props.FactsWiring', 'Props.Pipeline'],
         streams=['processor', 'e2e', 'parse'],
         rule=PROC_RULE, trusted=PROC_TRUSTED,
         assumptions=PROC_ASSUME['C13'],
     ),
     'C17': dict(
-        lean=['Props.C17', 'Props.FactsProc', 'Props.Pipeline'],
+        lean=['Props.C17', 'Props.C17Spec', 'Props.FactsProc', 'Props.Pipeline'],
         streams=['processor', 'e2e'],
         project={'processor': r'^< (c\.|t\.|ret|panic)'}, rule=PROC_RULE, trusted=PROC_TRUSTED,
         assumptions=PROC_ASSUME['C17'],
@@ -234,7 +234,7 @@ MANIFEST_TEXT = {
         design_ref='DESIGN.md 5/C03'),
     'C04': dict(
         text='Theorem for every event list and EVERY fault placement: a successful start occurs at a frame iff no recording is active, the frame has motion, the run counter reached trigger-frames, the window is open, CheckCanRecord passes and StartRecording succeeds; the disk check is consulted only with the window open; a refusal does not reset the run counter (retry on the next motion frame).',
-        note=_COMMON_NOTE + 'the executable monitor that states the property is part of the trusted reading of the statement (lean/TR/ProcMon.lean, lean/TR/ThrMon.lean).',
+        note=_COMMON_NOTE + 'the executable monitor used on real traces is proved equivalent, for every trace, to a monitor-free rule (Props/C04Spec.monC04_iff: at every frame, a successful start iff no recording open, motion, run >= trigger-frames, window, disk check, start ok; disk check / start attempted only when due), so it is no longer part of the trusted reading.',
         technique='Lean 4 proof (product invariant of model x ghost x monitor, induction over the event list) + differential correspondence',
         design_ref='DESIGN.md 5/C04'),
     'C12': dict(
@@ -244,12 +244,12 @@ MANIFEST_TEXT = {
         design_ref='DESIGN.md 5/C12'),
     'C13': dict(
         text='Theorem for every event list and fault placement: a rejected frame produces no write on any sink, ends an open motion recording (stop observed), never starts one, and the content a rejecting parser scribbled into the ring slot is never written to any sink later. Parsing (zero pixel <-> bad frame, pixel-exact decode) is covered by the parse stream and theorems.',
-        note=_COMMON_NOTE + 'the executable monitor that states the property is part of the trusted reading of the statement (lean/TR/ProcMon.lean, lean/TR/ThrMon.lean).',
+        note=_COMMON_NOTE + 'the executable monitor used on real traces is proved equivalent, for every trace, to a monitor-free rule (Props/C13Spec.monC13_iff, badFrameRule_plain), so it is no longer part of the trusted reading; C13Parse ties the parsers.',
         technique='Lean 4 proof (product invariant of model x ghost x monitor, induction over the event list) + differential correspondence',
         design_ref='DESIGN.md 5/C13'),
     'C17': dict(
         text='Theorem for every event list: the continuous sink receives every accepted frame exactly once, in order, in files of maxF+1 frames (restarting after a bad frame), independent of motion, window and faults on the motion sink; a pending test request yields one file with the next testLast+1 = 21 accepted frames.',
-        note=_COMMON_NOTE + 'the executable monitor that states the property is part of the trusted reading of the statement (lean/TR/ProcMon.lean, lean/TR/ThrMon.lean).',
+        note=_COMMON_NOTE + 'monitor soundness is proved (Props/C17Spec: acceptance implies the continuous files are exactly the chunks of max-secs*fps+1 frames of the segments between bad frames, their concatenation is every frame id once in order, and every test file is the run of testLast+1 frames starting at the first frame after its request) under side conditions the driver also checks on real traces (no sink call outside frame processing).',
         technique='Lean 4 proof (product invariant of model x ghost x monitor, induction over the event list) + differential correspondence',
         design_ref='DESIGN.md 5/C17'),
     'C06': dict(
